@@ -161,7 +161,7 @@ def run(ctx, rep):
                    "closed socket in the table for the life of the server" % A.norm(cn.ast), ctx.loc(cn),
                    witness=ctx.path((p1 or []) + (p2 or [])[1:]) if not ok else None)
     K.share(ctx, rep, "c16", lambda o: o.rule == "R16.4" and "shut down and untracked" in o.key, "R17.2", floor=1)
-    K.share(ctx, rep, "c16", lambda o: o.rule == "R16.2" and ("_drop_connection" in o.key or "no longer polled" in o.key), "R17.2", floor=2)
+    K.share(ctx, rep, "c16", lambda o: o.rule == "R16.2" and ("_drop_connection" in o.key or "no longer polled" in o.key or "before its descriptor is polled" in o.key), "R17.2", floor=3)
     K.share(ctx, rep, "c11", lambda o: o.rule == "R11.3" and ("serve_all" in o.key or "serve_threaded" in o.key), "R17.2", floor=2)
     # a server tears its clients down one after the other: closing one whose peer has vanished must not raise out of the loop
     K.share(ctx, rep, "c11", lambda o: o.rule == "R11.1" and "already gone" in o.key, "R17.1", floor=1)
